@@ -185,6 +185,21 @@ func runRingCase(t *testing.T, run *vt.Run, c vt.CaseID, rng *rand.Rand, rc ring
 				l.stop()
 			}
 		}()
+		// the same content behind the other stock replication strategy (ignore unhealthy instances): the walk is the
+		// same, the lookup returns exactly its healthy members, fails only when there is none and tolerates all but one
+		var lenient *ring.Ring
+		{
+			st := rk.NewStore()
+			st.RecordGets = false
+			st.Put("harness", rk.Key, rk.Desc(rc.Insts))
+			r, stop, err := rk.StartRingWithStrategy(cfg, st.Client("ring"), rk.Key, ring.NewIgnoreUnhealthyInstancesReplicationStrategy())
+			if err != nil {
+				run.Inconclusive("ring start: " + err.Error())
+				return
+			}
+			defer stop()
+			lenient = r
+		}
 		// metamorphic partner: R plus one instance X
 		var metaRing *ring.Ring
 		var xid string
@@ -316,6 +331,24 @@ func runRingCase(t *testing.T, run *vt.Run, c vt.CaseID, rng *rand.Rand, rc ring
 					if !sampled && nontrivial && run.WantSample() {
 						sampled = true
 						run.Sample(map[string]any{"ring": rc, "key": key, "op": op.spec.Name, "walked": walked, "healthy": wantIDs, "max_errors": maxErr, "fails": fails})
+					}
+				}
+				if (int(key)+len(op.spec.Name))%3 == 0 {
+					rs, err := lenient.Get(key, op.real, nil, nil, nil)
+					wantIDs := rk.Sorted(spec.HealthyAt(rc.Insts, walked, op.spec, rc.NowUnix*1000+rc.OffsetMs, rc.TimeoutS*1000))
+					kind := ""
+					switch {
+					case (err != nil) != (len(wantIDs) == 0):
+						kind = "error-presence"
+					case err == nil && !rk.EqStrings(rk.IDs(rs), wantIDs):
+						kind = "ids"
+					case err == nil && rs.MaxErrors != len(wantIDs)-1:
+						kind = "maxerrors"
+					}
+					run.Count("lookups_with_ignore_unhealthy_strategy", 1)
+					if kind != "" {
+						run.Violation(c, "get-mismatch/ignore-unhealthy-strategy/"+kind, fmt.Sprintf("Ring.Get(key=%d, op=%s) with the ignore-unhealthy strategy differs from the healthy members of the walked set (%s)", key, op.spec.Name, kind), map[string]any{
+							"ring": rc, "key": key, "op": op.spec, "want_walked": walked, "want_healthy": wantIDs, "got_ids": rk.IDs(rs), "got_max_errors": rs.MaxErrors, "got_error": fmt.Sprint(err)})
 					}
 				}
 				// metamorphic clause, on real answers only
